@@ -591,7 +591,10 @@ def run(ctx):
                        "the model receives what they read (ipv6_packet, ip_src, ip_dst, bytes(packet.tcp|udp))",
                        "end to end the tool is run in-process (tlexport.main.run with sys.argv), module-level lists reset"]
     import export_inputs_thms, export_inputs2_thms          # whole-program forms (Props/ExportInputs) about exportFile / framesFrom
-    ctx.prove(["TLX.Props.C11"] + export_inputs_thms.MODULES + export_inputs2_thms.MODULES)
+    import translate                 # decision-logic functions re-translated from the source and proved equal to the model
+    _tm, _tt = translate.wire(ctx, "C11")
+    ctx.prove(["TLX.Props.C11"] + export_inputs_thms.MODULES + export_inputs2_thms.MODULES + _tm)
+    ctx.require_theorems(_tt)
     ctx.require_theorems(export_inputs_thms.THEOREMS_C11 + export_inputs2_thms.THEOREMS_NAT + export_inputs2_thms.THEOREMS_C11)
     import file_corr
     file_corr.correspond(ctx, ctx.n(12, 200))     # ties the whole-program model (the theorems' subject) file to file
